@@ -63,6 +63,11 @@ CLAIMED.update({
          "Necessary clauses of 2020-12 validity visible in the code on every path: every keyword has a handler, integer-is-number in both type forms, lengths in code points, bounds fail on exactly the right orderings, additionalProperties blind to annotations, in-place applicators before unevaluated*, deterministic iteration. Not the verdict of any schema/instance pair.", "4/C01"),
 })
 
+CLAIMED.update({
+ "C10": ("inventory of explicit panics and assertions with reflect-kind dataflow at each; kind-precondition analysis of every partial reflect operation with call-site propagation; iterator-protocol reachability; nil-guard dominance for callback and (nil, nil) results; strongly connected components of the static call graph against a table of terminating shapes, each with its own checked obligation",
+         "Panic sites unreachable for JSON-shaped inputs or discharged by named rules, partial reflect operations guarded, iterators obey the yield protocol, callback and optional results nil-tested, every recursive component of a known terminating shape with its seen-set / cache / tree-check obligation. Not the absence of all run-time panics.", "4/C10"),
+})
+
 NOT_YET = "static clauses designed in DESIGN.md section 4 but the rule is not built yet in this session"
 
 def main():
